@@ -319,6 +319,36 @@ func monC02(c *drv.Ctx) {
 		cs.Count(depth >= 2, "path", path, depth)
 	})
 
+	// (3b') well-formed values in a local array of a goroutine whose stack grows (moves) during the recursion
+	c.Stage("stack-resident-value", c.Pick(1200, 12000), false, func(cs *drv.Case) {
+		r := cs.R
+		pad := int(cs.Idx % 300)
+		depth := 10 + r.Intn(54) // 10..63
+		var b []byte
+		var t byte
+		if r.Intn(2) == 0 {
+			t = []byte{ref.STRUCT, ref.MAP, ref.SET, ref.LIST}[r.Intn(4)]
+			b = gen.Nested(t, depth, r.Intn(3))
+		} else {
+			b, t = gen.NestedPath(gen.NestPaths[r.Intn(len(gen.NestPaths))], depth, r.Intn(2) == 0)
+		}
+		trail := r.Intn(8)
+		if len(b)+trail > 1024 {
+			return
+		}
+		in := append(append([]byte(nil), b...), gen.Bytes(r, trail)...)
+		o := stackSkip(in, t, pad)
+		cs.Desc = M{"type": t, "depth": depth, "pad_frames": pad, "trailing": trail, "value_hex": hexOf(b)}
+		if o.onStack {
+			cs.C.Obs("values on a goroutine stack", 1)
+		}
+		if o.panic != nil || o.err != nil || o.n != len(b) {
+			cs.Fail("skip-wrong-extent", M{"skipper": "Binary.Skip", "placement": "stack"}, M{"type": t, "value_hex": hexOf(b), "trailing": trail, "pad_frames": pad,
+				"observed_n": o.n, "observed_err": errString(o.err), "panic": fmt.Sprint(o.panic), "want_n": len(b), "on_stack": o.onStack})
+		}
+		cs.Count(true, "stack", t, pad, b)
+	})
+
 	// (3c) multi-megabyte values (beyond 1 MiB and 4 MiB), first on fresh pooled decoders, then again
 	c.Stage("huge-values", 12, true, func(cs *drv.Case) {
 		size := []int{1<<20 + 5, 3 << 19, 4<<20 + 1, 6 << 20}[cs.Idx%4]
